@@ -49,7 +49,15 @@ struct Base64Mirror(Arc<str>);
 
 /// A `Base64` whose encoded text is the given string (no encoding step).
 pub(crate) fn base64_raw(s: &str) -> Base64 {
-    let m = Base64Mirror(Arc::from(s));
+    let a: Arc<str> = Arc::from(s);
+    // Pin the reference count at 2 (leak one clone): when the code under test
+    // drops or replaces the value, `Arc::drop` only decrements and never takes
+    // the deallocation path.  CBMC's model of `free` constrains every later
+    // pointer access; harnesses whose code under test freed a fixture ran out
+    // of memory within minutes, the same harness with pinned fixtures takes
+    // seconds.  Leaking changes no observable behaviour of the code under test.
+    std::mem::forget(a.clone());
+    let m = Base64Mirror(a);
     unsafe { std::mem::transmute::<Base64Mirror, Base64>(m) }
 }
 
@@ -57,6 +65,14 @@ pub(crate) fn base64_raw(s: &str) -> Base64 {
 pub(crate) fn base64_of(v: u8) -> Base64 {
     const T: [&str; 16] = ["A", "B", "C", "D", "E", "F", "G", "H", "I", "J", "K", "L", "M", "N", "O", "P"];
     base64_raw(T[(v % 16) as usize])
+}
+
+/// Content whose one-letter text is a *symbolic* byte: the allocation is
+/// concrete, only the letter depends on `v` (a table lookup with a symbolic
+/// index makes CBMC reason about a pointer with 16 possible targets).
+pub(crate) fn base64_sym(v: u8) -> Base64 {
+    let b = [b'A' + (v % 16)];
+    base64_raw(unsafe { std::str::from_utf8_unchecked(&b) })
 }
 
 /// Replacement body for `rpki::ca::publication::Base64::to_hash` (SHA-256 over
@@ -77,4 +93,23 @@ pub(crate) fn hash_of(v: u8) -> Hash {
 /// An arbitrary hash that is NOT the hash of any fixture content.
 pub(crate) fn hash_other() -> Hash {
     Hash::from([0u8; 32])
+}
+
+//------------ <[u8]>::eq_ignore_ascii_case ----------------------------------
+
+/// Replacement body for `<[u8]>::eq_ignore_ascii_case`, written without a
+/// loop for slices of at most 16 bytes (the module part of every fixture URI
+/// is 12 bytes).  std's version is a loop over the slice; CBMC needs a
+/// per-loop bound for it whose name contains compiler-generated hashes.  A
+/// longer slice fails the assertion (reported, never silently cut).
+pub(crate) fn eq_ignore_ascii_case_16(a: &[u8], b: &[u8]) -> bool {
+    if a.len() != b.len() {
+        return false;
+    }
+    assert!(a.len() <= 16, "fixture bound: eq_ignore_ascii_case model handles at most 16 bytes");
+    macro_rules! at {
+        ($($i:literal)*) => { $( if a.len() > $i && !a[$i].eq_ignore_ascii_case(&b[$i]) { return false; } )* };
+    }
+    at!(0 1 2 3 4 5 6 7 8 9 10 11 12 13 14 15);
+    true
 }
